@@ -443,6 +443,7 @@ def validate_geometry(seed, n=40):
   rng = np.random.default_rng(seed + 7)
   bad = []
   ncap = [0]
+  nreg = {}
 
   def contacts(xml):
     m = mujoco.MjModel.from_xml_string(xml)
@@ -478,6 +479,18 @@ def validate_geometry(seed, n=40):
       dd, t1, t2 = seg_closest_np(d.geom_xpos[0], a1v, d.geom_xpos[1], a2v)
       ncap[0] += int(abs(t1) == 1) + int(abs(t2) == 1)
       bad += _sphere_pair_report(d.geom_xpos[0] + t1 * a1v, r1, d.geom_xpos[1] + t2 * a2v, r2, c.dist, c.pos, c.frame[:3], "mujoco capsule-capsule")
+    # sphere - cylinder: closed-form reference (all regimes occur: the sphere centre is drawn around and inside the cylinder)
+    for _k in range(3):
+      pc = rng.uniform(-0.45, 0.45, 3)
+      m, d = contacts(f'<mujoco><worldbody><geom type="cylinder" size="{r1} {hl}" quat="{rq()}" margin="2"/><body pos="{pc[0]} {pc[1]} {pc[2]}"><freejoint/><geom size="{r2}"/></body></worldbody></mujoco>')
+      reg, wd, wn, wpos = cyl_reference(d.geom_xpos[1], r2, d.geom_xpos[0], d.geom_xmat[0].reshape(3, 3)[:, 2], r1, hl)
+      nreg[reg + ("+" if (d.geom_xpos[1] - d.geom_xpos[0]) @ d.geom_xmat[0].reshape(3, 3)[:, 2] > 0 else "-")] = 1
+      if d.ncon != 1:
+        bad.append(f"mujoco sphere-cylinder: {d.ncon} contacts")
+        continue
+      cc = d.contact[0]
+      if abs(cc.dist - wd) > 1e-6 or np.abs(cc.frame[:3] - wn).max() > 1e-5 or np.abs(cc.pos - wpos).max() > 1e-6:
+        bad.append(f"mujoco sphere-cylinder ({reg}) contact dist {cc.dist} n {cc.frame[:3].tolist()} differs from the closed-form reference dist {wd} n {wn.tolist()}")
     # plane - box: every MuJoCo contact is one of the 8 corner candidates
     bs = rng.uniform(0.05, 0.3, 3)
     m, d = contacts(f'<mujoco><worldbody><geom type="plane" size="5 5 .1" quat="{rq()}" margin="1"/><body pos="{p2[0]} {p2[1]} {p2[2]}" quat="{rq()}"><freejoint/><geom type="box" size="{bs[0]} {bs[1]} {bs[2]}"/></body></worldbody></mujoco>')
@@ -512,6 +525,8 @@ def validate_geometry(seed, n=40):
       proj = ax - nrm * np.dot(nrm, ax)
       if np.linalg.norm(proj) > 1e-3 and np.abs(np.cross(c.frame[3:6], proj)).max() > 1e-5:
         bad.append("mujoco plane-capsule second frame axis is not along the projected capsule axis")
+  if n >= 40 and len(nreg) < 6:
+    bad.append(f"sphere-cylinder validation only hit regimes {sorted(nreg)}")
   if n >= 20 and ncap[0] == 0:
     bad.append("capsule-capsule validation never hit an end-cap case")
   return bad
@@ -610,7 +625,9 @@ def _sphere_pair_goals(P, p1, r1, p2, r2, dist, pos, n, what):
   P.lemma("nL=d", z3.Implies(nzc, veq(scl(n, L), d)))
   P.lemma("n.n*L^2", z3.Implies(nzc, dot(n, n) * L * L == L * L))
   P.lemma("n.n=1", z3.Implies(nzc, dot(n, n) == 1))
+  P.lemma("nL=d-always", veq(scl(n, L), d), using=["nL=d", "L^2", "L>=0"])
   P.goal("normal/unit", dot(n, n) == 1, desc=f"{what}: normal is not a unit vector")
+  P.goal("normal/times-distance", veq(scl(n, L), d), using=["nL=d-always"], desc=f"{what}: normal times centre distance is not the vector from the first centre to the second")
   P.goal("normal/from-1-to-2", z3.And(veq(cross(n, d), [0, 0, 0]), dot(n, d) > 0), nzc, desc=f"{what}: normal does not point from the first geom's centre to the second's")
   P.goal("dist/separation", z3.And(L >= 0, L * L == dot(d, d)), desc=f"{what}: dist + r1 + r2 is not the distance between the centres")
   P.goal("pos/midway", veq(scl(pos, 2), add(add(p1, scl(n, r1)), sub(p2, scl(n, r2)))), desc=f"{what}: pos is not midway between the two surface points along the normal")
@@ -946,7 +963,7 @@ def pair_contract(p1, r1, p2, r2, d, pos, n):
   dv = sub(p2, p1)
   L = d + r1 + r2
   nz = z3.Or(*[c != 0 for c in dv])
-  return [dot(n, n) == 1, L >= 0, L * L == dot(dv, dv), veq(scl(pos, 2), add(add(p1, scl(n, r1)), sub(p2, scl(n, r2)))), z3.Implies(nz, z3.And(veq(cross(n, dv), [0, 0, 0]), dot(n, dv) > 0))]
+  return [dot(n, n) == 1, L >= 0, L * L == dot(dv, dv), veq(scl(pos, 2), add(add(p1, scl(n, r1)), sub(p2, scl(n, r2)))), z3.Implies(nz, z3.And(veq(cross(n, dv), [0, 0, 0]), dot(n, dv) > 0)), veq(scl(n, L), dv)]
 
 
 def kkt(x, g):
@@ -1140,6 +1157,216 @@ def unit_plane_box(ctx):
     P.goal(f"corner{i}/pos-midway", veq(scl(pos, 2), add(corner, foot)), desc=f"plane_box: pos[{i}] is not midway between corner {i} and the plane")
 
 
+# ------------------------------------------------------------------------------------------------ sphere_cylinder
+
+
+def cyl_reference(c, rs, p, a, Rc, h):
+  """closed-form reference: sphere (centre c, radius rs) vs solid cylinder (centre p, unit axis a, radius Rc, half height h).
+  With x = (c-p).a and rho = |(c-p) - a x| the signed distance sd of c to the cylinder, the nearest surface point q and the
+  contact normal (from the sphere towards the cylinder; for a centre inside: towards the axis / the far cap) are
+    side wall  (|x| < h and (rho >= Rc or h-|x| >= Rc-rho)):  sd = rho - Rc,          n = -u            (u = radial unit vector)
+    cap        (rho < Rc and (|x| >= h or h-|x| < Rc-rho)):   sd = |x| - h,           n = -sign(x) a
+    rim        (|x| >= h and rho >= Rc):                      sd = |(|x|-h, rho-Rc)|, n = (q - c)/sd,  q = p + sign(x) h a + Rc u
+  dist = sd - rs,  pos = c + n (rs + dist/2)  (midway between the sphere surface point c + n rs and q = c + n sd).
+  -> (regime, dist, n, pos)"""
+  v = c - p
+  x = float(v @ a)
+  pp = v - a * x
+  rho = float(np.linalg.norm(pp))
+  u = pp / rho if rho > 0 else np.zeros(3)
+  sg = 1.0 if x > 0 else -1.0
+  if abs(x) < h and (rho >= Rc or h - abs(x) >= Rc - rho):
+    reg, sd, n = "side", rho - Rc, -u
+  elif rho < Rc:
+    reg, sd, n = "cap", abs(x) - h, -sg * a
+  else:
+    q = p + sg * h * a + Rc * u
+    sd = float(np.linalg.norm(q - c))
+    reg, n = "rim", (q - c) / sd if sd > 0 else -u
+  dist = sd - rs
+  return reg, dist, n, c + n * (rs + 0.5 * dist)
+
+
+def goal_sphere_cylinder(spec, pre, post):
+  c, rs = _f32(_argv(spec, "sphere_pos")), float(_f32(_argv(spec, "sphere_radius")))
+  p, a, Rc, h = _f32(_argv(spec, "cylinder_pos")), _f32(_argv(spec, "cylinder_axis")), float(_f32(_argv(spec, "cylinder_radius"))), float(_f32(_argv(spec, "cylinder_half_height")))
+  reg, wd, wn, wpos = cyl_reference(c, rs, p, a, Rc, h)
+  dist, pos, n = float(post["dist_out"][0]), post["pos_out"][0].astype(np.float64), post["normal_out"][0].astype(np.float64)
+  scale = 1 + np.abs(c - p).max() + abs(rs) + abs(Rc) + abs(h)
+  msgs = []
+  if abs(dist - wd) > TOL * scale:
+    msgs.append(f"dist {dist} but the separation of sphere and cylinder is {wd}")
+  if np.abs(n - wn).max() > TOL and np.linalg.norm(wn) > 0.5:
+    msgs.append(f"normal {n.tolist()} but the direction from the sphere to the nearest cylinder point is {wn.tolist()}")
+  if np.abs(pos - wpos).max() > TOL * scale and np.linalg.norm(wn) > 0.5:
+    msgs.append(f"pos {pos.tolist()} but the midway point is {wpos.tolist()}")
+  return (not msgs), f"sphere_cylinder ({reg} regime, axial coordinate {float((c - p) @ a):.4f}): " + ("; ".join(msgs) or "ok")
+
+
+def unit_sphere_cylinder(group):
+  def run(ctx):
+    _unit_sphere_cylinder(ctx, group)
+
+  return run
+
+
+def _unit_sphere_cylinder(ctx, group):
+  from mujoco_warp._src import collision_primitive_core as cpc
+
+  ctx.encode(cpc.sphere_cylinder)
+  ctx.bound(group=group, note="no loops; all inputs symbolic, the sign of the axial coordinate included; regimes: side wall (centre radially outside / inside), caps +/- (outside / inside), rims +/-; sphere_sphere and plane_sphere are used through the statements proved in their own units; wp.dot results named (definitions)")
+  ctx.assume("cylinder axis is a unit vector, radius > 0, half height > 0", "floats are reals", "reference: closed form stated in geom_c20.cyl_reference")
+  calls = []
+
+  def mk(kind):
+    def summary(it, fr, args):
+      k = len(calls)
+      d = z3.Real(f"res_dist!{k}")
+      pos = [z3.Real(f"res_pos!{k}_{i}") for i in range(3)]
+      if kind == "ss":
+        n = [z3.Real(f"res_n!{k}_{i}") for i in range(3)]
+        p1, r1_, p2, r2_ = [R(c) for c in args[0].c], R(args[1]), [R(c) for c in args[2].c], R(args[3])
+        facts = pair_contract(p1, r1_, p2, r2_, d, pos, n)
+        calls.append({"kind": kind, "guard": it.active(fr), "p1": p1, "r1": r1_, "p2": p2, "r2": r2_, "d": d, "pos": pos, "n": n, "facts": facts})
+        it.assumes += facts
+        return (d, Vec(pos, (3,), "f"), Vec(n, (3,), "f"))
+      nrm, pp_, cc, rr = [R(c) for c in args[0].c], [R(c) for c in args[1].c], [R(c) for c in args[2].c], R(args[3])
+      # what unit plane_sphere proves: dist = signed distance, pos midway between sphere surface point and its foot point
+      facts = [d == dot(sub(cc, pp_), nrm) - rr, veq(scl(pos, 2), sub(scl(cc, 2), scl(nrm, 2 * rr + d)))]
+      calls.append({"kind": kind, "guard": it.active(fr), "nrm": nrm, "pp": pp_, "c": cc, "r": rr, "d": d, "pos": pos, "facts": facts})
+      it.assumes += facts
+      return (d, Vec(pos, (3,), "f"))
+
+    return summary
+
+  gi = GInterp(summaries={cpc.sphere_sphere.key: mk("ss"), cpc.plane_sphere.key: mk("ps")}, abstract_dot=True)
+  kt, gi = run_wrapper("k_sphere_cylinder", {"dist_out": [1], "pos_out": [1], "normal_out": [1]}, interp=gi, divmode="poly")
+  c, rs = vec_arg(kt, "sphere_pos"), R(kt.args["sphere_radius"])
+  p, a, Rc, h = vec_arg(kt, "cylinder_pos"), vec_arg(kt, "cylinder_axis"), R(kt.args["cylinder_radius"]), R(kt.args["cylinder_half_height"])
+  dist, pos, n = R(kt.post("dist_out", 0)), out_vec(kt, "pos_out", 0, 3), out_vec(kt, "normal_out", 0, 3)
+  rp = lib.make_replay(ctx, kt, LOC + "k_sphere_cylinder", "sphere_cylinder", "goal", goal="checks.geom_c20:goal_sphere_cylinder")
+  kinds = [cl["kind"] for cl in calls]
+  if kinds != ["ss", "ps", "ss"] or len(gi.dots) != 2:
+    ctx.error(f"sphere_cylinder structure changed (calls {kinds}, {len(gi.dots)} dot products): harness does not apply")
+    return
+  # reference scalars (definitions): axial coordinate, radial vector, radial distance
+  v = sub(c, p)
+  xr, rho = z3.Real("ref_x"), z3.Real("ref_rho")
+  pp = sub(v, scl(a, xr))
+  defs = [xr == dot(v, a), rho >= 0, rho * rho == dot(pp, pp)]
+  pre = [dot(a, a) == 1, Rc > 0, h > 0]
+  absx = z3.If(xr >= 0, xr, -xr)
+  allv = free_vars(z3.And(*[core.zbool(b) for b in kt.bg]))
+  sq = [z3.Real(nm) for nm in sorted(allv) if nm.startswith("sqrt!")]
+  dv = [z3.Real(nm) for nm in sorted(allv) if nm.startswith("div!")]
+  inputs = free_vars(z3.And(*[t == 0 for t in c + p + a]))
+  scalar_facts = [f for f in (core.zbool(t) for t in kt.bg) if not (free_vars(f) & inputs)]
+  d0, d1 = gi.dots[0][2], gi.dots[1][2]
+
+  def pin(cv, av=(0, 0, 1), Rv="1", hv="1", rsv="1/2", pv=(0, 0, 0)):
+    return z3.And(pin_vec(c, cv), pin_vec(a, av), pin_vec(p, pv), Rc == Q(Rv), h == Q(hv), rs == Q(rsv))
+
+  A2 = ("2/7", "3/7", "6/7")
+  pins = [pin(cv) for cv in [(3, 0, "1/2"), (0, 4, "-1/2"), ("1/4", 0, "1/8"), (0, "3/4", "-1/8"), ("1/4", 0, "7/8"), (0, "1/4", "-7/8"), ("1/2", 0, 3), (0, "-1/2", -3), (3, 4, 2), (3, 4, -2), (0, 5, -4), (4, 0, 13)]]
+  pins += [pin(cv, av=A2, Rv="1/2", hv="2", pv=(1, 0, -1)) for cv in [(3, 1, 0), (1, 0, -1), (2, 2, 3), (0, -2, -5), (-1, 3, -4), (3, 0, -7), ("8/7", "2/7", "-3/7")]]
+  inside = z3.And(absx < h, rho < Rc)
+  capnear = h - absx < Rc - rho
+  REG = {
+    "side/outside": (z3.And(absx < h, rho >= Rc), "side", 0),
+    "side/inside": (z3.And(inside, z3.Not(capnear)), "side", 0),
+    "cap+/inside": (z3.And(inside, capnear, xr > 0), "cap", 1),
+    "cap-/inside": (z3.And(inside, capnear, xr <= 0), "cap", -1),
+    "cap+/outside": (z3.And(xr >= h, rho < Rc), "cap", 1),
+    "cap-/outside": (z3.And(xr <= -h, rho < Rc), "cap", -1),
+    "rim+": (z3.And(xr >= h, rho >= Rc), "rim", 1),
+    "rim-": (z3.And(xr <= -h, rho >= Rc), "rim", -1),
+  }
+  names = {"axial_x": xr, "radial_rho": rho, "cyl_radius": Rc, "half_height": h, "sphere_radius": rs}
+  base = kt.bg + defs + pre
+  cover = ctx.session(defs + pre)
+  ctx.prove(cover, "regimes-cover-all-poses", z3.Or(*[r[0] for r in REG.values()]), names=names, replay=lambda m: (False, "no replay: statement about the case split"), desc="harness: the regime case split does not cover every pose")
+  for rname, (cond, kind, sg) in REG.items():
+    if not rname.startswith(group):
+      continue
+    P = Proof(ctx, base + [cond], names, rp, prefix=f"{rname}/", pins=pins)
+    tw = next((pn for pn in pins if str(kh.Session(defs + pre + [cond, pn], timeout_ms=3000).reach("t").status) == "sat"), None)
+    ctx.reach(P.full, "twin:regime-reachable", tw if tw is not None else True)
+    # link the code's scalars to the reference
+    P.lemma("x", d0 == xr, using=[d0 == dot(gi.dots[0][0], gi.dots[0][1]), defs[0]])
+    P.lemma("psq", d1 == rho * rho, using=["x", d1 == dot(gi.dots[1][0], gi.dots[1][1]), defs[2]])
+    P.lemma("psq>=0", d1 >= 0, using=["psq"])
+    for sv in sq:
+      P.lemma(f"{sv}=rho", sv == rho, using=["psq", "psq>=0", defs[1], z3.Implies(d1 >= 0, z3.And(sv >= 0, sv * sv == d1))])
+    sqn = [f"{sv}=rho" for sv in sq]
+    P.lemma("rho<R-iff", (rho < Rc) == (d1 < Rc * Rc), using=["psq", defs[1], pre[1]])
+    sc = scalar_facts + ["x", "psq", "rho<R-iff", cond, defs[1]] + pre + sqn
+    call = calls[{"side": 0, "cap": 1, "rim": 2}[kind]]
+    P.goal("branch", call["guard"], using=sc, desc=f"sphere_cylinder: a pose in the {rname} regime is not handled by the {kind} branch")
+    P.lemma("guard", call["guard"], using=sc)
+    others = [cl for cl in calls if cl is not call]
+    P.lemma("not-others", z3.And(*[z3.Not(core.zbool(cl["guard"])) for cl in others]), using=sc)
+    L = dist + rs  # = signed distance sd of the sphere centre to the cylinder
+    if kind == "side":
+      P.goal("output", z3.And(dist == call["d"], veq(pos, call["pos"]), veq(n, call["n"])), using=["guard", "not-others"], desc="sphere_cylinder (side): outputs are not the sphere-pair result")
+      P.lemma("out", z3.And(dist == call["d"], veq(pos, call["pos"]), veq(n, call["n"])), using=["guard", "not-others"])
+      P.goal("args", z3.And(veq(call["p1"], c), call["r1"] == rs, call["r2"] == Rc, veq(call["p2"], add(p, scl(a, xr)))), using=["x"], desc="sphere_cylinder (side): the sphere test is not (sphere, point of the axis at the sphere's axial coordinate with the cylinder radius)")
+      P.lemma("args", z3.And(veq(call["p1"], c), call["r1"] == rs, call["r2"] == Rc, veq(call["p2"], add(p, scl(a, xr)))), using=["x"])
+      dvec = sub(call["p2"], call["p1"])
+      P.lemma("dv=-pp", veq(dvec, scl(pp, -1)), using=["args"])
+      P.lemma("|dv|^2", dot(dvec, dvec) == rho * rho, using=["dv=-pp", defs[2]])
+      Lc = call["d"] + call["r1"] + call["r2"]
+      P.lemma("L=rho", Lc == rho, using=["|dv|^2", defs[1], call["facts"][1], call["facts"][2]])
+      P.goal("dist/separation", dist == rho - Rc - rs, using=["out", "args", "L=rho"], desc="sphere_cylinder (side wall): dist is not (radial distance - cylinder radius - sphere radius)")
+      P.goal("normal/unit", dot(n, n) == 1, using=["out", call["facts"][0]], desc="sphere_cylinder (side wall): normal is not unit")
+      P.lemma("n*rho", veq(scl(call["n"], rho), scl(pp, -1)), using=["L=rho", "dv=-pp", call["facts"][5]])
+      P.goal("normal/towards-axis", veq(scl(n, rho), scl(pp, -1)), using=["out", "n*rho"], desc="sphere_cylinder (side wall): normal is not the inward radial direction (from the sphere towards the cylinder axis)")
+      P.lemma("p2=c+n*rho", veq(call["p2"], add(c, scl(call["n"], rho))), using=["args", "L=rho", call["facts"][5]])
+      P.goal("pos/midway", veq(scl(pos, 2), add(scl(c, 2), scl(n, rs + rho - Rc))), using=["out", "args", "p2=c+n*rho", call["facts"][3]], desc="sphere_cylinder (side wall): pos is not midway between the sphere surface and the wall point")
+    elif kind == "cap":
+      outf = z3.And(dist == call["d"], veq(pos, call["pos"]), veq(n, scl(call["nrm"], -1)))
+      P.goal("output", outf, using=["guard", "not-others"], desc="sphere_cylinder (cap): outputs are not the plane-sphere result with the flipped plane normal")
+      P.lemma("out", outf, using=["guard", "not-others"])
+      argf = z3.And(veq(call["nrm"], scl(a, sg)), veq(call["pp"], add(p, scl(a, sg * h))), veq(call["c"], c), call["r"] == rs)
+      P.goal("args", argf, using=sc, desc=f"sphere_cylinder (cap {'+' if sg > 0 else '-'}): the plane test is not against the cap plane on the side of the sphere (normal {'+' if sg > 0 else '-'}axis through centre {'+' if sg > 0 else '-'} half height * axis)")
+      P.lemma("args", argf, using=sc)
+      P.lemma("d-expand", dot(sub(c, add(p, scl(a, sg * h))), scl(a, sg)) == sg * dot(v, a) - h * dot(a, a), using=[])
+      P.goal("dist/separation", dist == sg * xr - h - rs, using=["out", "args", "d-expand", call["facts"][0], defs[0], pre[0]], desc="sphere_cylinder (cap): dist is not (|axial coordinate| - half height - sphere radius)")
+      P.lemma("dist", dist == sg * xr - h - rs, using=["out", "args", "d-expand", call["facts"][0], defs[0], pre[0]])
+      P.goal("normal/into-cap", veq(n, scl(a, -sg)), using=["out", "args"], desc="sphere_cylinder (cap): normal is not the axis direction pointing from the sphere into the cylinder")
+      P.goal("normal/unit", dot(n, n) == 1, using=["out", "args", pre[0]], desc="sphere_cylinder (cap): normal is not unit")
+      P.goal("pos/midway", veq(scl(pos, 2), add(scl(c, 2), scl(n, rs + sg * xr - h))), using=["out", "args", "dist", call["facts"][1]], desc="sphere_cylinder (cap): pos is not midway between the sphere surface and the cap")
+    else:
+      e, f = sg * xr - h, rho - Rc
+      P.goal("output", z3.And(dist == call["d"], veq(pos, call["pos"]), veq(n, call["n"])), using=["guard", "not-others"], desc="sphere_cylinder (rim): outputs are not the sphere-pair result")
+      P.lemma("out", z3.And(dist == call["d"], veq(pos, call["pos"]), veq(n, call["n"])), using=["guard", "not-others"])
+      if len(dv) != 1:
+        ctx.error("sphere_cylinder rim: expected exactly one division")
+        return
+      inv = dv[0]
+      P.lemma("rho>0", rho > 0, using=[cond, pre[1]])
+      P.lemma("inv*rho=1", inv * rho == 1, using=scalar_facts + sqn + ["rho>0"])
+      rim = add(add(p, scl(a, sg * h)), scl(pp, Rc * inv))
+      argf = z3.And(veq(call["p1"], c), call["r1"] == rs, call["r2"] == 0, veq(call["p2"], rim))
+      P.goal("args", argf, using=sc + ["x"], desc=f"sphere_cylinder (rim {'+' if sg > 0 else '-'}): the sphere test is not against the rim point centre {'+' if sg > 0 else '-'} half height * axis + radius * radial direction (zero radius)")
+      P.lemma("args", argf, using=sc + ["x"])
+      dvec = sub(call["p2"], call["p1"])
+      form = sub(scl(a, -sg * e), scl(pp, 1 - Rc * inv))
+      P.lemma("dv-form", veq(dvec, form), using=["args", defs[0]])
+      P.lemma("a.pp=0", dot(a, pp) == 0, using=[defs[0], pre[0]])
+      P.lemma("rho*(1-R*inv)", rho * (1 - Rc * inv) == f, using=["inv*rho=1"])
+      P.lemma("pp.pp*(1-R*inv)^2", dot(pp, pp) * (1 - Rc * inv) * (1 - Rc * inv) == f * f, using=["rho*(1-R*inv)", defs[2]])
+      P.lemma("|form|^2-expand", dot(form, form) == e * e * dot(a, a) + 2 * sg * e * (1 - Rc * inv) * dot(a, pp) + dot(pp, pp) * (1 - Rc * inv) * (1 - Rc * inv), using=[])
+      P.lemma("|dv|^2", dot(dvec, dvec) == e * e + f * f, using=["dv-form", "|form|^2-expand", "a.pp=0", "pp.pp*(1-R*inv)^2", pre[0]])
+      Lc = call["d"] + call["r1"] + call["r2"]
+      P.goal("dist/separation", z3.And(L >= 0, L * L == e * e + f * f), using=["out", "args", "|dv|^2", call["facts"][1], call["facts"][2]], desc="sphere_cylinder (rim): dist + sphere radius is not the distance of the sphere centre to the rim circle, sqrt((|x|-h)^2 + (rho-R)^2)")
+      P.goal("normal/unit", dot(n, n) == 1, using=["out", call["facts"][0]], desc="sphere_cylinder (rim): normal is not unit")
+      P.lemma("n*L", veq(scl(call["n"], Lc), form), using=["dv-form", call["facts"][5]])
+      P.lemma("n*L*rho", veq(scl(call["n"], Lc * rho), sub(scl(a, -sg * e * rho), scl(pp, f))), using=["n*L", "rho*(1-R*inv)"])
+      P.goal("normal/towards-rim", veq(scl(n, L * rho), sub(scl(a, -sg * e * rho), scl(pp, f))), using=["out", "args", "n*L*rho"], desc="sphere_cylinder (rim): normal is not the direction from the sphere centre to the nearest rim point")
+      P.lemma("p2=c+n*L", veq(call["p2"], add(c, scl(call["n"], Lc))), using=["args", call["facts"][5]])
+      P.goal("pos/midway", veq(scl(pos, 2), add(scl(c, 2), scl(n, rs + L))), using=["out", "args", "p2=c+n*L", call["facts"][3]], desc="sphere_cylinder (rim): pos is not midway between the sphere surface and the rim point")
+
+
 def unit_validate(ctx):
   bad = validate_geometry(ctx.seed, 60 if ctx.tier == "quick" else 300)
   for b in bad[:5]:
@@ -1164,5 +1391,8 @@ def units(include_frame=True):
     ("geometry/plane_capsule/fallback-z", unit_plane_capsule("fallback-z")),
     ("geometry/capsule_capsule", unit_capsule_capsule),
     ("geometry/plane_box", unit_plane_box),
+    ("geometry/sphere_cylinder/side", unit_sphere_cylinder("side")),
+    ("geometry/sphere_cylinder/cap", unit_sphere_cylinder("cap")),
+    ("geometry/sphere_cylinder/rim", unit_sphere_cylinder("rim")),
   ]
   return u
